@@ -700,13 +700,21 @@ VH_CMD(snapshot)
     const Consensus::Params cp = CChainParams::RegTest({})->GetConsensus();
     const Mutation genuine_mut{.cls = "control", .kind = "genuine_after_refusals"};
 
-    for (uint64_t c = args.from; c < args.to; ++c) {
+    // single-attempt cases (ident/base/bg, each needs its own node and up to 110 validated blocks) are spread evenly between
+    // the batches so that shards get equal work: position p is a single case iff p % R == R-1 (while singles remain)
+    const uint64_t n_single = P.n_ident + P.n_base + P.n_bg, n_total = P.total_cases();
+    const uint64_t R = n_single ? std::max<uint64_t>(1, n_total / n_single) : n_total + 1;
+    for (uint64_t pos = args.from; pos < args.to && pos < n_total; ++pos) {
+        const uint64_t c = pos;
         vh::set_case(c);
         vh::Rng rng(args.seed, c);
-        if (c < P.n_batches()) {
+        const bool is_single = (pos % R) == R - 1 && (pos / R) < n_single;
+        const uint64_t singles_before = std::min(n_single, pos / R);
+        if (!is_single) {
+            const uint64_t bi = pos - singles_before;
             // ---- a batch of file mutations ----------------------------------------------------------------------
             std::unique_ptr<Node> n;
-            const uint64_t k0 = c * P.batch, k1 = std::min(P.n_file(), k0 + P.batch);
+            const uint64_t k0 = bi * P.batch, k1 = std::min(P.n_file(), k0 + P.batch);
             for (uint64_t k = k0; k < k1; ++k) {
                 vh::Rng mr(args.seed ^ 0x5eedf11e, k); // the mutation depends on (seed, k) only
                 const Mutation m = FileMutation(P, k, mr, G, L, perm, ch);
@@ -737,7 +745,7 @@ VH_CMD(snapshot)
             }
             continue;
         }
-        uint64_t k = c - P.n_batches();
+        uint64_t k = pos / R;
         Mutation m;
         std::string scn = "normal", scn_note;
         const Bytes* src = &G;
